@@ -132,6 +132,58 @@ def two_threads():
     return None
 
 
+def shared_handover(extra):
+    """a TrampolineScheduler shared by two threads: thread B schedules b1 in the gap between A's run loop ending and A's run()
+    returning (a pre-emption point: `_run` is wrapped so that thread A pauses right after the real `_run` returned).  b1 then schedules
+    c1 (extra = True).  Oracle: b1 and c1 run exactly once each, c1 only after b1 returned (never nested), nothing is lost."""
+    from reactivex.scheduler import TrampolineScheduler
+    from reactivex.scheduler.trampoline import Trampoline
+    a_left, b_done = threading.Event(), threading.Event()
+    orig = Trampoline._run
+
+    def paused(self):
+        orig(self)
+        if threading.current_thread().name == "A" and not a_left.is_set():
+            a_left.set()
+            b_done.wait(10)
+    Trampoline._run = paused
+    try:
+        s = TrampolineScheduler()
+        log = []
+
+        def b1(sc, st=None):
+            log.append("b1 start")
+            b_done.set()           # A's epilogue runs now, while b1 is (possibly) still running
+            if extra:
+                import time as _t
+                t0 = _t.time()
+                while ta.is_alive() and _t.time() - t0 < 5:
+                    _t.sleep(0.001)
+                sc.schedule(lambda sc2, st2=None: log.append("c1"))
+            log.append("b1 end")
+
+        def B():
+            a_left.wait(10)
+            s.schedule(b1)
+            b_done.set()
+        tb = threading.Thread(target=B, name="B")
+        ta = threading.Thread(target=lambda: s.schedule(lambda sc, st=None: log.append("a1")), name="A")
+        tb.start()
+        ta.start()
+        ta.join(20)
+        tb.join(20)
+        if ta.is_alive() or tb.is_alive():
+            return {"what": "the threads did not finish", "log": log}
+        # anything left in the queue of an idle trampoline is lost
+        want = ["a1", "b1 start", "b1 end"] + (["c1"] if extra else [])
+        if log != want:
+            return {"what": "an action scheduled from another thread between the run loop's end and run()'s return was lost, ran twice or ran nested",
+                    "got": log, "expected": want}
+        return None
+    finally:
+        Trampoline._run = orig
+
+
 def scenarios():
     offs = [None, -3, -2, -1]
     ids = ["A", "B", "C", "D"]
@@ -163,7 +215,8 @@ sys.exit(r.returncode)
 def main(argv):
     if argv[0] == "case":
         c = json.loads(argv[1])
-        r = two_threads() if c.get("two_threads") else check(c["kind"], c["roots"])
+        r = (two_threads() if c.get("two_threads") else shared_handover(c.get("extra", False)) if c.get("shared_handover")
+             else check(c["kind"], c["roots"]))
         print(json.dumps({"violation": r}, default=repr))
         sys.exit(1 if r else 0)
     opts = json.loads(argv[3]) if len(argv) > 3 else {}
@@ -182,6 +235,12 @@ def main(argv):
         r = two_threads()
         if r:
             found = {"case": {"two_threads": True, "kind": "current_thread", "roots": []}, "disagreement": r}
+    for extra in (False, True):
+        if not found:
+            cases += 1
+            r = shared_handover(extra)
+            if r:
+                found = {"case": {"shared_handover": True, "extra": extra, "kind": "trampoline (shared by two threads)", "roots": []}, "disagreement": r}
     res = {"cases": cases, "found": [found] if found else []}
     if found and "replay_path" in opts:
         os.makedirs(os.path.dirname(opts["replay_path"]), exist_ok=True)
